@@ -23,6 +23,7 @@ import (
 	"github.com/tink-crypto/tink-go/v2/internal/protoserialization"
 	"github.com/tink-crypto/tink-go/v2/key"
 	"github.com/tink-crypto/tink-go/v2/keyset"
+	tinkpb "github.com/tink-crypto/tink-go/v2/proto/tink_go_proto"
 	"github.com/tink-crypto/tink-go/v2/verifsim/catalog"
 	"github.com/tink-crypto/tink-go/v2/verifsim/classes"
 	"github.com/tink-crypto/tink-go/v2/verifsim/core"
@@ -759,13 +760,35 @@ func drawOp(t *rapid.T, r *core.Run, sh *shared, scenario, label string) op {
 		r.Probe("registry-lookup")
 		return op{name: "registry", run: func(sh *shared) ([]byte, error) {
 			var sb strings.Builder
-			for _, ki := range sh.h.KeysetInfo().GetKeyInfo() {
+			ks := insecurecleartextkeyset.KeysetMaterial(sh.h)
+			for i, ki := range sh.h.KeysetInfo().GetKeyInfo() {
 				km, err := registry.GetKeyManager(ki.GetTypeUrl())
 				if err != nil {
 					fmt.Fprintf(&sb, "%s:err;", ki.GetTypeUrl())
 					continue
 				}
 				fmt.Fprintf(&sb, "%s:%v;", km.TypeURL(), km.DoesSupport(ki.GetTypeUrl()))
+				if ks != nil && i < len(ks.GetKey()) {
+					// the legacy read paths of the global registry: key data -> primitive, and public key data of private keys
+					kd := ks.GetKey()[i].GetKeyData()
+					p, err := registry.PrimitiveFromKeyData(kd)
+					fmt.Fprintf(&sb, "prim:%v/%v;", p != nil, err == nil)
+					if pkm, ok := km.(registry.PrivateKeyManager); ok && kd.GetKeyMaterialType() == tinkpb.KeyData_ASYMMETRIC_PRIVATE {
+						pub, err := pkm.PublicKeyData(kd.GetValue())
+						fmt.Fprintf(&sb, "pub:%d/%v;", len(pub.GetValue()), err == nil)
+					}
+				}
+				// parameters <-> template through the serialization registry
+				if i < sh.h.Len() {
+					if e, err := sh.h.Entry(i); err == nil {
+						if tpl, err := protoserialization.SerializeParameters(e.Key().Parameters()); err == nil {
+							back, err := protoserialization.ParseParameters(tpl)
+							fmt.Fprintf(&sb, "params:%v;", err == nil && back.Equal(e.Key().Parameters()))
+						} else {
+							sb.WriteString("params:unserializable;")
+						}
+					}
+				}
 			}
 			return []byte(sb.String()), nil
 		}}
